@@ -106,6 +106,8 @@ def drive(tier):
 
         def do(method, fn, kind="result", code=0, result_json="null", sent_amounts=(), sent_hashes=(), sent_objs=(),
                recv_amount_texts=(), recv_hash_hex=(), recv_objs_hex=(), getters=None):
+            if kcount[0] % 5 == 2:
+                poke()
             conn.reply = reply_for(kind, code, result_json)
             n0 = len(conn.requests)
             k, v = call(fn)
@@ -145,6 +147,13 @@ def drive(tier):
             R.add("rpc.call", {"method": method, "kind": kind, "code": code}, out, tid=tid, k=kcount[0])
             return v if k == "ret" else None
 
+        # another proxy object makes calls in between: this proxy's ids must not be disturbed, nor its replies mixed up
+        other_conn = FakeConn()
+        other = rpc.Proxy(service_url="http://u:p@localhost:18332", connection=other_conn)
+
+        def poke():
+            other_conn.reply = b'{"result": 123, "error": null, "id": 1}'
+            call(other.getblockcount)
         mine = amounts[pi * per:(pi + 1) * per]
         for sats in mine:
             for t in (amount_texts(sats, r) if (tier == "thorough" or sats < 200 or r.random() < 0.3) else amount_texts(sats, r)[:1]):
